@@ -16,7 +16,7 @@ RULE = ("histories of ~18 steps over 1-3 proxies and 1-5 concurrently open strea
         "{0,5} x ITER_STREAM_LINGER {0,3} x both server types. distinct = (history hash, step); non-trivial = the step concerns an open stream")
 ASSUMPTIONS = ["the virtual clock starts at 1e9 (a linger stamp of 0 means 'none' in Pyro's code)", "after every client-side disconnect / oneway close the harness waits for the server-side event (10 s watchdog, expiry = inconclusive)",
                "a stream whose deadline has passed may be forgotten at any time until the next explicit housekeeping step, after which it must be gone"]
-REQUIRED_REACH = ["connected_socket_streams_ok", "histories_with_failing_disconnect_hook", "items_ok", "stopiteration_ok", "generator_exception_ok", "forgotten_ok", "reconnect_continues", "linger_expired", "lifetime_expired", "table_checked", "streaming_disabled_ok", "racing_reconnects", "server_ended_connections", "housekeeping_during_fetch", "histories_under_one_correlation_id", "concurrent_streams_checked", "slow_item_streams_checked", "natural_housekeeping_ok"]
+REQUIRED_REACH = ["cross_thread_closes_ok", "connected_socket_streams_ok", "histories_with_failing_disconnect_hook", "items_ok", "stopiteration_ok", "generator_exception_ok", "forgotten_ok", "reconnect_continues", "linger_expired", "lifetime_expired", "table_checked", "streaming_disabled_ok", "racing_reconnects", "server_ended_connections", "housekeeping_during_fetch", "histories_under_one_correlation_id", "concurrent_streams_checked", "slow_item_streams_checked", "natural_housekeeping_ok"]
 SHARD_TIMEOUT = {"quick": 240, "thorough": 3000}
 
 
@@ -712,6 +712,66 @@ def connected_socket_phase(P, rec, r, cfg, n):
         rec.count("connected_socket_streams_ok")
 
 
+def cross_thread_close_phase(fx, rec, r, cfg, n):
+    """two streams on one proxy in its owner thread; the one that made the most recent call is closed (or dropped and collected) in ANOTHER
+    thread. Whatever that does to the closed stream, the owner thread's other stream goes on delivering the server's items to the end."""
+    import gc
+    P = fx.P
+    for k in range(n):
+        key1, key2 = "xt1-%d" % r.randrange(10 ** 9), "xt2-%d" % r.randrange(10 ** 9)
+        SPECS[key1] = ([[key1, i] for i in range(6)], False, "gen")
+        SPECS[key2] = ([[key2, i] for i in range(7)], False, r.choice(["gen", "iterobj"]))
+        how = ("close", "drop+gc")[k % 2]
+        pay = {"cross_thread_close": True, "cfg": cfg, "how": how}
+        rec.case(("xthread", how, k, cfg["servertype"]), nontrivial=True, sample=pay if k == 0 else None)
+        p = fx.proxy("src", serializer=cfg["serializer"], timeout=10.0)
+        got2, err = [], None
+        try:
+            it2 = p.open(key2)
+            got2.append(list(next(it2)))
+            holder = [p.open(key1)]
+            next(holder[0])          # (the most recent call on the proxy belongs to stream 1)
+
+            def other_thread():
+                try:
+                    if how == "close":
+                        holder[0].close()
+                    holder.pop()
+                    gc.collect()
+                except Exception:
+                    pass             # (a non-owner thread may well be refused; that is its own business)
+            t = threading.Thread(target=other_thread, daemon=True)
+            t.start()
+            t.join(20)
+            try:
+                for x in it2:
+                    got2.append(list(x))
+            except Exception as x:
+                err = x
+            finally:
+                try:
+                    it2.close()
+                except Exception:
+                    pass
+        except Exception as x:
+            rec.inconc("cross-thread close case failed in the harness: %r" % (x,))
+            continue
+        finally:
+            try:
+                p._pyroClaimOwnership()
+                p._pyroRelease()
+            except Exception:
+                pass
+            SPECS.pop(key1, None)
+            SPECS.pop(key2, None)
+        want = [[key2, i] for i in range(7)]
+        if err is not None or got2 != want:
+            rec.violation("stream-broken-by-other-streams-close", "stream 2 of a proxy (items so far %r of %d) %s after stream 1 of the same proxy was %s in another thread" % (
+                got2, len(want), "failed with %r" % (err,) if err is not None else "ended early", "closed" if how == "close" else "dropped and collected"), pay)
+            return
+        rec.count("cross_thread_closes_ok")
+
+
 def install_gate(fx):
     """delay point at the entry of the daemon's disconnect handling (thread server only: there the old connection's worker and the new connection's
     worker really run concurrently); armed per connection serial by the 'racing-reconnect' step"""
@@ -754,6 +814,7 @@ def run_shard(shard, rec):
             natural_housekeeping_phase(fx, vclock, rec, r, cfg, 3 if rec.tier == "quick" else 20)
         if shard["streaming"]:
             connected_socket_phase(P, rec, r, cfg, 2 if rec.tier == "quick" else 10)
+            cross_thread_close_phase(fx, rec, r, cfg, 2 if rec.tier == "quick" else 10)
         if shard["streaming"] and shard["linger"] and not shard["lifetime"]:
             slow_item_phase(fx, rec, r, cfg, 2 if rec.tier == "quick" else 12)
         for kind, text in fixture.take_faults():
@@ -775,6 +836,18 @@ def replay_connected(payload, rec):
 def replay(payload, rec):
     if payload.get("connected_socket"):
         return replay_connected(payload, rec)
+    if payload.get("cross_thread_close"):
+        P = fixture.pyro()
+        import Pyro5.server
+        Pyro5.server.time = VClock()
+        cfg = payload["cfg"]
+        fx = fixture.Fixture(servertype=cfg["servertype"], COMMTIMEOUT=0.0, ITER_STREAMING=True, ITER_STREAM_LIFETIME=float(cfg["lifetime"]), ITER_STREAM_LINGER=float(cfg["linger"]))
+        try:
+            fx.register(make_service(P), "src")
+            cross_thread_close_phase(fx, rec, gen.rng(0, "replay"), cfg, 4)
+        finally:
+            fx.stop()
+        return
     P = fixture.pyro()
     cfg = payload["cfg"]
     vclock = VClock()
